@@ -8,10 +8,11 @@ from . import core
 from . import c02_common as cm
 
 PROP = "C02"
-LEAN_TARGETS = ["Asynkit.Props.C02"]
-PROPS_FILES = ["Asynkit/Props/C02.lean"]
+LEAN_TARGETS = ["Asynkit.Props.C02", "Asynkit.Lemmas.GenEqC02"]
+PROPS_FILES = ["Asynkit/Props/C02.lean", "Asynkit/Lemmas/GenEqC02.lean"]
 DRIVERS = ["Proto"]
 TRUSTED = [
+    "translator/wrappers2lean.py regenerates Asynkit/Gen/Wrappers.lean from coroutine.py on every run (coro_iter, coro_await, awaitmethod, awaitmethod_iter, await_sync, syncfunction, aiter_sync; statement by statement, generators/coroutines segment by segment); Lemmas/GenEqC02.lean proves each generated segment equal to the model's transition; trusted there: the meaning of the method calls (Model/WrapRt.lean)",
     "Lean 4.33 kernel; axioms ⊆ {propext, Classical.choice, Quot.sound} (audited per theorem each run)",
     "hand-written models Asynkit/Model/{Proto,Wrappers}.lean of coroutine.py (CoroStart, coro_await, coro_iter, "
     "awaitmethod, awaitmethod_iter) and monitor.py (_asend, aawait, BoundMonitor), tied to the code by this run's "
